@@ -355,3 +355,13 @@ def contracts():
     for c in extra:
         c.prop = PROP
     return _c06_base() + extra
+
+
+_c06_base2 = contracts
+
+
+def contracts():
+    from contracts import c05 as _c05
+    u = _c05.update_contract()
+    u.prop = PROP
+    return _c06_base2() + [u]
